@@ -82,7 +82,7 @@ func c12Mutations(br BuiltRequest, m *synth.Method) []struct {
 		r = clone()
 		r.CType = "application/json; charset=utf-8"
 		add("json-body-with-charset", r)
-		for name, body := range map[string]string{"body-empty": "", "body-null": "null", "body-array": "[]", "body-scalar": "7", "body-trailing-garbage": *br.Req.Body + " x"} {
+		for name, body := range map[string]string{"body-empty": "", "body-null": "null", "body-array": "[]", "body-scalar": "7", "body-trailing-garbage": *br.Req.Body + " x", "body-newline-only": "\n", "body-blanks-only": "  \t ", "body-padded": " \n" + *br.Req.Body + "\n "} {
 			r = clone()
 			b := body
 			r.Body = &b
@@ -232,6 +232,25 @@ func c12(c *orch.Ctx) (*report.Result, error) {
 				add(rr, reqPlan{Class: "typical"}, "refused-401", "", "*=401")
 				add(rr, reqPlan{Class: "typical"}, "refused-custom", "", "*=custom403")
 				add(rr, reqPlan{Class: "typical"}, "refused-418", "", "*=418")
+				// every alternative refused, each with its own status / payload
+				eff := p.EffectiveSecurity(rr.c, rr.m)
+				keys := map[string]bool{}
+				pol := "*=403"
+				for i, a := range eff {
+					if !keys[secKey(a)] {
+						keys[secKey(a)] = true
+						v := fmt.Sprintf("%d", 401+5*i)
+						if i%2 == 1 {
+							v = "custom" + fmt.Sprint(409+i)
+						}
+						pol += "," + secKey(a) + "=" + v
+					}
+				}
+				if len(keys) >= 2 {
+					add(rr, reqPlan{Class: "typical"}, "refused-differently-per-alternative", "", pol)
+					add(rr, reqPlan{Class: "typical"}, "only-last-alternative-approves", "", "*=401,"+secKey(eff[len(eff)-1])+"=ok")
+					add(rr, reqPlan{Class: "typical"}, "only-first-alternative-approves", "", "*=401,"+secKey(eff[0])+"=ok")
+				}
 			}
 			for _, pr := range rr.m.Params {
 				if pr.In == "ctx" {
